@@ -37,6 +37,14 @@ pub trait Caps: TokComp {
     fn read_events(_w: &World) -> Option<Vec<Value>> {
         None
     }
+    /// `Storage::flag`: write an event of the caller's choosing; false = not a tracked storage
+    fn flag_event(_w: &World, _kind: &str, _id: u32) -> bool {
+        false
+    }
+    /// `Storage::event_emission()`
+    fn get_emit(_w: &World) -> Option<bool> {
+        None
+    }
     fn set_emit(_w: &World, _b: bool) -> bool {
         false
     }
@@ -192,6 +200,27 @@ where
     true
 }
 
+pub fn get_emit_t<T: TokComp>(w: &World) -> Option<bool>
+where
+    T::Storage: Tracked,
+{
+    let st = w.read_storage::<T>();
+    Some(st.event_emission())
+}
+
+pub fn flag_t<T: TokComp>(w: &World, kind: &str, id: u32) -> bool
+where
+    T::Storage: Tracked,
+{
+    let mut st = w.write_storage::<T>();
+    st.flag(match kind {
+        "I" => ComponentEvent::Inserted(id),
+        "R" => ComponentEvent::Removed(id),
+        _ => ComponentEvent::Modified(id),
+    });
+    true
+}
+
 // ------------------------------------------------------------------ slices
 fn occupied<T: TokComp>(st: &ReadStorage<T>) -> Vec<u32> {
     use specs::hibitset::BitSetLike;
@@ -225,6 +254,8 @@ macro_rules! caps_flagged {
             fn register_reader(w: &World) { reg_reader::<Self>(w) }
             fn read_events(w: &World) -> Option<Vec<Value>> { read_evs::<Self>(w) }
             fn set_emit(w: &World, b: bool) -> bool { set_emit_t::<Self>(w, b) }
+            fn get_emit(w: &World) -> Option<bool> { get_emit_t::<Self>(w) }
+            fn flag_event(w: &World, kind: &str, id: u32) -> bool { flag_t::<Self>(w, kind, id) }
         }
     )* };
 }
@@ -236,6 +267,8 @@ macro_rules! caps_deref {
             fn register_reader(w: &World) { reg_reader::<Self>(w) }
             fn read_events(w: &World) -> Option<Vec<Value>> { read_evs::<Self>(w) }
             fn set_emit(w: &World, b: bool) -> bool { set_emit_t::<Self>(w, b) }
+            fn get_emit(w: &World) -> Option<bool> { get_emit_t::<Self>(w) }
+            fn flag_event(w: &World, kind: &str, id: u32) -> bool { flag_t::<Self>(w, kind, id) }
         }
     )* };
 }
